@@ -4,6 +4,7 @@ CONSTANTS
   Kinds <- KindsN
   MaxT = 1
   Variant = "pml_branch"
+  Srcs = "few"
 INVARIANT TypeOK
 INVARIANT PermInv
 INVARIANT PermBijective
